@@ -81,7 +81,7 @@ type c20case struct {
 }
 
 // c20engineCase enumerates every failure index and both failure modes for one input.
-func c20engineCase(r *vk.Run, e *rsync.Engine, c c20case, sig *rsync.Signature, sites map[string]int) (runs int) {
+func c20engineCase(r *vk.Run, col *collector, e *rsync.Engine, c c20case, sig *rsync.Signature, sites map[string]int) (runs int) {
 	ops := e.DeltifyBytes(c.Target, sig, c.Max)
 	// The fault-free delta must itself be right, else nothing can be concluded about faults.
 	if got, err := e.PatchBytes(c.Base, sig, ops); err != nil || !bytes.Equal(got, c.Target) {
@@ -116,7 +116,8 @@ func c20engineCase(r *vk.Run, e *rsync.Engine, c c20case, sig *rsync.Signature, 
 			if perr != nil {
 				w["receiver_patch_error"] = perr.Error()
 			}
-			r.Violation(map[string]string{"rule": "success-despite-failed-transmit", "site": site, "mode": mode, "route": "deltify"},
+			col.add(map[string]string{"rule": "success-despite-failed-transmit", "site": site, "mode": mode, "route": "deltify"},
+				len(c.Base)+len(c.Target), fmt.Sprintf("%s|%s|%d|%d|%d", c.Base, c.Target, c.BlockSize, c.Max, k),
 				fmt.Sprintf("Deltify returned nil although transmitting operation %d (%s, site %s) failed (%s); receiver reconstructs %s instead of %s",
 					k, opsString(ops[k:k+1]), site, mode, show(got), show(c.Target)), w)
 		}
@@ -126,6 +127,7 @@ func c20engineCase(r *vk.Run, e *rsync.Engine, c c20case, sig *rsync.Signature, 
 
 func c20() {
 	r := vk.Start("C20", "fault_enumeration")
+	col := newCollector()
 	var mu sync.Mutex
 	sites := map[string]int{}
 	merge := func(local map[string]int) {
@@ -157,7 +159,7 @@ func c20() {
 						for _, max := range maxes {
 							c := c20case{Base: base, Target: target, BlockSize: bs, Max: max}
 							r.Guard(map[string]any{"base": string(base), "target": string(target), "bs": bs, "max": max}, func() {
-								runs += c20engineCase(r, e, c, sig, local)
+								runs += c20engineCase(r, col, e, c, sig, local)
 							})
 						}
 					}
@@ -192,7 +194,7 @@ func c20() {
 				fmt.Printf("case C20 engine idx=%d base=%d target=%d bs=%d max=%d\n", idx, len(base), len(target), bs, max)
 				r.Guard(map[string]any{"idx": idx, "base": show(base), "target": show(target), "bs": bs, "max": max}, func() {
 					sig := e.BytesSignature(base, bs)
-					runs += c20engineCase(r, e, c, sig, local)
+					runs += c20engineCase(r, col, e, c, sig, local)
 				})
 			}
 			r.Eval(runs)
@@ -203,7 +205,9 @@ func c20() {
 	wg.Wait()
 
 	// Part B: the same through rsync.Transmit over files.
-	c20transmit(r, merge)
+	col.flush(r)
+	c20transmit(r, col, merge)
+	col.flush(r)
 
 	keys := make([]string, 0, len(sites))
 	for k := range sites {
@@ -339,7 +343,7 @@ func txPool(r *vk.Run) []txFile {
 	return pool
 }
 
-func c20transmit(r *vk.Run, merge func(map[string]int)) {
+func c20transmit(r *vk.Run, col *collector, merge func(map[string]int)) {
 	pool := txPool(r)
 	r.Count("transmit_pool_size", int64(len(pool)))
 	nSets := r.Pick(320, 6000)
@@ -387,7 +391,7 @@ func c20transmit(r *vk.Run, merge func(map[string]int)) {
 				}
 				fmt.Printf("case C20 transmit set=%d files=%d\n", idx, len(files))
 				r.Guard(map[string]any{"set": idx, "files": describeFiles(files)}, func() {
-					runs += c20transmitSet(r, e, filepath.Join(scratch, fmt.Sprintf("w%d", w)), idx, files, local, &sampleOnce)
+					runs += c20transmitSet(r, col, e, filepath.Join(scratch, fmt.Sprintf("w%d", w)), idx, files, local, &sampleOnce)
 				})
 			}
 			r.Eval(runs)
@@ -412,7 +416,7 @@ func describeFiles(files []txFile) []map[string]any {
 	return out
 }
 
-func c20transmitSet(r *vk.Run, e *rsync.Engine, dir string, set int, files []txFile, sites map[string]int, sampleOnce *sync.Once) (runs int) {
+func c20transmitSet(r *vk.Run, col *collector, e *rsync.Engine, dir string, set int, files []txFile, sites map[string]int, sampleOnce *sync.Once) (runs int) {
 	src, dst := filepath.Join(dir, "src"), filepath.Join(dir, "dst")
 	os.RemoveAll(dir)
 	defer os.RemoveAll(dir)
@@ -542,7 +546,12 @@ func c20transmitSet(r *vk.Run, e *rsync.Engine, dir string, set int, files []txF
 			w := map[string]any{"route": "rsync.Transmit -> encoding receiver -> DecodeToReceiver -> receiver", "files": describeFiles(files),
 				"failed_message_index": k, "failed_message": infos[k].desc, "failed_message_file": files[infos[k].file].Name, "mode": mode,
 				"messages_delivered": len(enc.queue), "messages_fault_free": len(base.queue), "difference": bad}
-			r.Violation(map[string]string{"rule": "success-despite-failed-transmit", "site": infos[k].site, "mode": mode, "route": "transmit"},
+			total := 0
+			for _, f := range files {
+				total += len(f.Base) + len(f.Target)
+			}
+			col.add(map[string]string{"rule": "success-despite-failed-transmit", "site": infos[k].site, "mode": mode, "route": "transmit"},
+				total, fmt.Sprintf("%06d|%04d", set, k),
 				fmt.Sprintf("Transmit returned nil although encoding message %d (%s, site %s) failed (%s); %s", k, infos[k].desc, infos[k].site, mode, bad), w)
 		}
 	}
